@@ -142,6 +142,11 @@ _OTHER = hdr.SOMEIPSDHeader(entries=(hdr.SOMEIPSDEntry(sd_type=T.FindService, se
                                                        minver_or_counter=7),), flag_reboot=False).assign_option_indexes()
 
 
+_OTHER2 = hdr.SOMEIPSDHeader(entries=(hdr.SOMEIPSDEntry(
+    sd_type=T.OfferService, service_id=0x4322, instance_id=1, major_version=1, ttl=9, minver_or_counter=7,
+    options_1=(hdr.SOMEIPSDLoadBalancingOption(7, 8),)),), flag_reboot=False)
+
+
 def check_message(entries, flags, where):
     """entries: resolved library entries.  -> list of violation tuples"""
     reboot, unicast, unknown = flags
@@ -155,6 +160,12 @@ def check_message(entries, flags, where):
         if bytes(raw) != data:
             out.append(("roundtrip", "encoding-changed-by-a-later-encode", "the object returned by build() changed when another "
                         "message was encoded", where))
+        # a message that is prepared (indexes assigned) and serialised later - after another message was prepared, as
+        # in a batch that assigns all messages first and then builds them - still encodes to the same bytes
+        _OTHER2.assign_option_indexes()
+        if bytes(assigned.build()) != data:
+            out.append(("roundtrip", "prepared-message-changed-by-a-later-assign", "a message with assigned option indexes "
+                        "encodes differently after another message was prepared", where))
     except Exception as e:  # noqa: BLE001
         return [("roundtrip", "build-raises", f"{type(e).__name__}: {e}", where)]
     try:
